@@ -36,6 +36,28 @@ Theorem C07_exc_roundtrip : forall codec serr ctor,
 Proof. exact exc_roundtrip_gen. Qed.
 Print Assumptions C07_exc_roundtrip.
 
+(* ... and the traceback that arrives is the one of THIS call: [tbv] is a parameter of the call, independent of
+   the exception object; an instance that already carries a traceback from an earlier call (raised again from a
+   stored failure, a constant, ...) gets it replaced *)
+Theorem C07_traceback_of_this_call : forall attrs tbv stale,
+  assoc k_traceback (set_attr k_traceback tbv (set_attr k_traceback stale attrs)) = Some tbv.
+Proof. exact traceback_of_this_call. Qed.
+Print Assumptions C07_traceback_of_this_call.
+
+(* never a hang: under the generated handler structure no class of the table is left both unanswered and
+   connected (today some are unanswered, see the _refuted theorems, but then the connection is dropped) *)
+Theorem C07_never_hangs : forall ci, In ci exc_table -> route gen_facts ci <> NoReplyKeep.
+Proof. exact never_hangs. Qed.
+Print Assumptions C07_never_hangs.
+
+Theorem C07_guarded_reraise_refuted : forall s,
+  r_out (run quirks_none gen_tables facts_guarded_reraise std_codec (std_serr gen_tables) std_ctor s KPlain
+           (simple_exc c_ConnectionClosedError) tb0) = OHang /\
+  r_out (run quirks_none gen_tables facts_today std_codec (std_serr gen_tables) std_ctor s KPlain
+           (simple_exc c_ConnectionClosedError) tb0) = OConnLost.
+Proof. exact guarded_reraise_hangs. Qed.
+Print Assumptions C07_guarded_reraise_refuted.
+
 (* exc_roundtrip — batch member at any position: the results before it are delivered, then the same
    exception is raised (StopIteration excepted, see C07_batch_stopiteration_refuted) *)
 Theorem C07_exc_roundtrip_batch : forall codec serr ctor,
